@@ -4,6 +4,7 @@
 // threshold_ and the whole bucket array RawBegin()..RawEnd(), or its digest).
 // Same line protocol as ocaml/C13_driver.ml.
 #include "hx_common.hh"
+#include <malloc.h>
 #include <algorithm>
 #include <cstddef>
 #include <cstdlib>
@@ -220,6 +221,9 @@ template <class Entry> void RunSet(uint64_t seed, uint64_t count, uint64_t unive
 }  // namespace
 
 int main() {
+  // every malloc'd / realloc'd / freed byte is garbage unless the code under test zeroes it itself:
+  // makes "HugeRealloc zero-fills the new half" (the model's environment assumption) deterministic to test
+  mallopt(M_PERTURB, 0x5a);
   std::string line;
   while (std::getline(std::cin, line)) {
     std::vector<std::string> t = hx::split_ws(line);
